@@ -1,0 +1,32 @@
+// Verification contracts (comment-only, compiled only with the "verif" build tag; read by /verif/govc).
+
+//go:build verif
+// +build verif
+
+package common
+
+// Property C08, clause 4 (delegator accounts): the sorted address list of an account (`SortedAddresses`, types.go).
+// The order of the list: addresses as 160-bit big-endian numbers (what Address.Big() computes) — the numbering `c08AddrNum`
+// declared with the validator-side list in core/state/verif_contracts_c08.go. Lists are described over ABSOLUTE indices of the
+// backing array (`elems(s)[a]`, off(s) <= a < off(s)+len(s)): triggers without arithmetic.
+
+// strictly increasing, hence duplicate free
+//@ spec func c08ASorted(s: SortedAddresses) bool =
+//@     forall a: int, b: int :: { elems(s)[a], elems(s)[b] } off(s) <= a && a < b && b < off(s) + len(s) ==> c08AddrNum(elems(s)[a]) < c08AddrNum(elems(s)[b])
+// p is the lower bound of address x in the sorted list s
+//@ spec func c08AIsLB(s: SortedAddresses, x: Address, p: int) bool =
+//@     0 <= p && p <= len(s) &&
+//@     (forall a: int :: { elems(s)[a] } off(s) <= a && a < off(s) + p ==> c08AddrNum(elems(s)[a]) < c08AddrNum(x)) &&
+//@     (forall a: int :: { elems(s)[a] } off(s) + p <= a && a < off(s) + len(s) ==> c08AddrNum(elems(s)[a]) >= c08AddrNum(x))
+// the position Search returns (a function of the list content and the address)
+//@ spec func c08APos(arr: seq[Address], o: int, n: int, x: Address) int
+
+// Search = sort.Search with the closure `s[i].Big().Cmp(a.Big()) >= 0`. The closure allocates (Address.Big), so the engine cannot use
+// it as the pure predicate of the sort.Search contract (/verif/specs/stdlib/sort.spec): TRUSTED instance of that contract for a monotone
+// predicate on a sorted list, plus injectivity of Address.Big on the entries of the list.
+//@ func (SortedAddresses).Search props C08
+//@ trusted
+//@ pure
+//@ ensures result == c08APos(elems(s), off(s), len(s), a) && 0 <= result && result <= len(s)
+//@ ensures c08ASorted(s) ==> c08AIsLB(s, a, result)
+//@ ensures forall k: int :: { elems(s)[k] } off(s) <= k && k < off(s) + len(s) && c08AddrNum(elems(s)[k]) == c08AddrNum(a) ==> elems(s)[k] == a
